@@ -159,7 +159,14 @@ Definition k7 : bool :=
   forallb (fun c => forallb (fun rf => negb (impl_auto auto_rules rf MSync (TCon c (TPay false true)))) all_flags)
           ["Mutex"; "RwLock"].
 
-Definition wf_key_known : bool := k1 && k2 && k3 && k4 && k6 && k7.  (* everything but the known finding F4 *)
+(* K8: a key carrier cannot be taken apart: no by-value IntoIterator on a key or hold carrier (it would hand the keyless
+   holds to the caller and drop the key beside them — the key obtainable again while the holds live), and every safe public
+   function that consumes a guard returns the key *)
+Definition k8 : bool :=
+  forallb (fun c => negb (has_impl c "IntoIterator")) (key_carriers ++ hold_carriers) &&
+  forallb (fun f => implb (safe_public f && fn_guard_val f) (fn_returns_key f)) fns.
+
+Definition wf_key_known : bool := k1 && k2 && k3 && k4 && k6 && k7 && k8.  (* everything but the known finding F4 *)
 Definition wf_key : bool := wf_key_known && k5.
 
 (* ---------------------------------------------------------------- C15: data confinement, as decidable conditions *)
@@ -256,10 +263,11 @@ Definition c14_offending_fns : list (string * string * string) :=
      negb (fn_key_val f || fn_keyable_val f || fn_guard_val f ||
            (String.eqb (fn_owner f) "ThreadKey" && String.eqb (fn_name f) "get"))) ||
     (safe_public f && str_in (fn_name f) acquire_names && str_in (fn_owner f) lock_types && negb (fn_key_val f || fn_keyable_val f)) ||
-    (safe_public f && fn_returns_guard f && negb (fn_key_val f))) fns).
+    (safe_public f && fn_returns_guard f && negb (fn_key_val f)) ||
+    (safe_public f && fn_guard_val f && negb (fn_returns_key f))) fns).
 Definition c14_offending_impls : list (string * string) :=
   filter (fun x => (str_in (fst x) key_carriers || str_in (fst x) hold_carriers) &&
-                   str_in (snd x) ["Clone"; "Copy"; "Default"]) trait_impls.
+                   str_in (snd x) ["Clone"; "Copy"; "Default"; "IntoIterator"]) trait_impls.
 Definition c15_offending_fns : list (string * string * string) :=
   map fn_id (filter (fun f =>
     (str_in (fn_name f) entry_names && negb (fn_unsafe f || negb (fn_public f))) ||
